@@ -259,6 +259,16 @@ func (d *drun) run(ctx context.Context, cancel context.CancelFunc, runners []uin
 	deadline := time.Now().Add(maxWait)
 	quiet := 0
 	for time.Now().Before(deadline) && int(atomic.LoadInt32(&returned)) < len(runners) {
+		// every runner must have entered the picture first: on a loaded machine the goroutines above may not have started yet,
+		// and "nobody is running, nothing is queued" would then be mistaken for the end of the session
+		d.mu.Lock()
+		registered := len(d.gids)
+		d.mu.Unlock()
+		if registered+int(atomic.LoadInt32(&returned)) < len(runners) {
+			quiet = 0
+			time.Sleep(300 * time.Microsecond)
+			continue
+		}
 		if d.pending() == 0 && atomic.LoadInt32(&d.busy) == 0 && d.allParked() {
 			quiet++
 			if quiet >= 3 {
